@@ -472,6 +472,11 @@ func (p *Parser) parseProviderArgument(pkg *packages.Package, kessokuPackageScop
 					return nil
 				}
 				continue
+			case *ast.ParenExpr:
+				currentArg = v.X
+			default:
+				// e.g. otherpkg.Set: only kessoku.Set(...) calls and variables of this package can be followed
+				return fmt.Errorf("invalid Set call expression")
 			}
 		}
 
